@@ -277,6 +277,32 @@ class SymPattern:
             lo, hi, sub = av
             sub = list(sub)
             greedy = op is sre_c.MAX_REPEAT
+            if len(sub) == 1 and sub[0][0] in (sre_c.LITERAL, sre_c.NOT_LITERAL, sre_c.IN, sre_c.ANY):
+                # repeat of a single-character test: iterative (no recursion per repetition)
+                sop, sav = sub[0]
+                if greedy:
+                    cnt = 0
+                    while cnt < hi and i + cnt < n and self._test(cells[i + cnt], sop, sav):
+                        cnt += 1
+                    for kk in range(cnt, lo - 1, -1):
+                        r = self._m(ops, oi + 1, i + kk, cells, g, k, pos0)
+                        if r is not None:
+                            return r
+                    return None
+                cnt = 0
+                while cnt < lo:
+                    if i + cnt < n and self._test(cells[i + cnt], sop, sav):
+                        cnt += 1
+                    else:
+                        return None
+                while True:
+                    r = self._m(ops, oi + 1, i + cnt, cells, g, k, pos0)
+                    if r is not None:
+                        return r
+                    if cnt < hi and i + cnt < n and self._test(cells[i + cnt], sop, sav):
+                        cnt += 1
+                    else:
+                        return None
 
             def rep(count, j, g2):
                 def more():
